@@ -148,9 +148,9 @@ func SMAnswer(a Args) error {
 		s.Conn.WaitOut(20, 3*time.Second)
 		s.Conn.WaitReaderBlocked(2 * time.Second)
 		msgs, _ := splitMsgs(s.Conn.Out())
-		emit := func(via string, reqFlags int, cmd uint32, rc int, hb, ee uint32, m *wireMsg) {
+		emitApp := func(via string, reqFlags int, cmd uint32, app uint32, rc int, hb, ee uint32, m *wireMsg) {
 			id++
-			l := ansLine{Ev: "answer", ID: id, Via: via, Req: ansHdr{Flags: reqFlags, Cmd: abs.B3(cmd), App: abs.B4(0), HbH: abs.B4(hb), E2E: abs.B4(ee)}, RC: rc, Stream: -1,
+			l := ansLine{Ev: "answer", ID: id, Via: via, Req: ansHdr{Flags: reqFlags, Cmd: abs.B3(cmd), App: abs.B4(app), HbH: abs.B4(hb), E2E: abs.B4(ee)}, RC: rc, Stream: -1,
 				Ans: ansObs{Hdr: ansHdr{Cmd: []int{0, 0, 0}, App: []int{0, 0, 0, 0}, HbH: []int{0, 0, 0, 0}, E2E: []int{0, 0, 0, 0}}, First: ansFirst{Sem: []int{}}, Stream: -1}}
 			if m != nil {
 				l.Ans.Hdr = ansHdr{Flags: int(m.Flags), Cmd: abs.B3(m.Cmd), App: abs.B4(m.App), HbH: abs.B4(m.HbH), E2E: abs.B4(m.E2E)}
@@ -164,6 +164,9 @@ func SMAnswer(a Args) error {
 				}
 			}
 			out.Emit(l)
+		}
+		emit := func(via string, reqFlags int, cmd uint32, rc int, hb, ee uint32, m *wireMsg) {
+			emitApp(via, reqFlags, cmd, 0, rc, hb, ee, m)
 		}
 		var first *wireMsg
 		if len(msgs) > 0 {
@@ -190,6 +193,10 @@ func SMAnswer(a Args) error {
 				off := len(s.Conn.Out())
 				d := buildDWR(hbh+uint32(j)+1, e2e^uint32(j), j%2 == 0, peerHost, peerRealm)
 				d[4] = fl
+				// a watchdog request under an application id other than 0 resolves through the base dictionary
+				// and is answered all the same: the answer mirrors the request's application id
+				app := []uint32{0, 4, 0xffffffff, 16777251}[j]
+				d[8], d[9], d[10], d[11] = byte(app>>24), byte(app>>16), byte(app>>8), byte(app)
 				s.Conn.Feed(d)
 				s.Conn.WaitOut(off+20, 3*time.Second)
 				s.Conn.WaitReaderBlocked(2 * time.Second)
@@ -198,7 +205,7 @@ func SMAnswer(a Args) error {
 				if len(m3) > 0 {
 					dwa = &m3[0]
 				}
-				emit("sm-dwa-seq", int(fl), 280, 2001, hbh+uint32(j)+1, e2e^uint32(j), dwa)
+				emitApp("sm-dwa-seq", int(fl), 280, app, 2001, hbh+uint32(j)+1, e2e^uint32(j), dwa)
 			}
 		}
 	}
